@@ -1,4 +1,4 @@
-// Tier A: contract of the real scalar kernel (the callee of the sinc loops' `get_sinc_interpolated` obligations in Tier B):
+// Tier A (bounded companion of the unbounded Verus contract in verus/scalar_kernel.rs.tmpl; supplies replayable inputs): contract of the real scalar kernel (the callee of the sinc loops' `get_sinc_interpolated` obligations in Tier B):
 // under its precondition (index + len < wave.len(), subindex < nbr_sincs, every row has `length` taps, length % 8 == 0) it
 // does not panic and every unchecked read stays inside `wave[index .. index+length]` and the selected row
 // (CBMC's pointer checks on the real unsafe block).
